@@ -84,7 +84,7 @@ SIZES4 = SIZES + ["[Note,Note,Note]"]
 CONTRACTS[M + "remove_note"] = dict(
     params={"self": "NoteContainer", "note": "str", "octave": "int"},
     requires=[("valid-names", "all([is_name(n.name) for n in self.notes])")],
-    old={"old_notes": "[n for n in self.notes]", "old_list": "self.notes"}, old_by_reference=["old_list"],
+    old={"old_notes": "[n for n in self.notes]", "old_list": "self.notes"}, old_by_reference=["old_list", "old_notes"],
     returns="list[any]",
     ensures=[("returns-its-own-note-list", "same_object(result, self.notes)"),
              ("the-list-it-held-before-is-not-edited", "list_same_objects(old_list, old_notes)"),
